@@ -27,7 +27,8 @@ RULE = ('Configurations = (generator, n_rdm, n_cond, grouping of RDMs, grouping 
         'states/transitions = nodes/edges of the explored choice trees; one evaluation = one complete '
         'execution of the real generator judged by the fold invariants, or one perturbation run of crossval() '
         'judged by bit-identity. Non-trivial = more than one fold; distinct = (configuration, shuffle history, '
-        'perturbed entry).')
+        'perturbed entry).'
+        " Also: float group labels closer than np.isclose's tolerances, and histories folds -> in-place sort_by / reorder / append -> folds on one object.")
 ASSUMPTIONS = ['all randomness of the generators enters through numpy.random.shuffle (tripwires on other entry points)',
                'a "group" is the set of items sharing one value of the grouping descriptor; bootstrap copies '
                'share the value of their original',
